@@ -311,7 +311,7 @@ var atomicAddrs = map[uintptr]bool{}
 func ResetSync() {
 	locks = map[uintptr]*lockState{}
 	atomicAddrs = map[uintptr]bool{}
-	pools = map[uintptr][]any{}
+	pools = map[uintptr][]pooled{}
 }
 
 func AtomicAddrs() map[uintptr]bool { return atomicAddrs }
@@ -451,14 +451,20 @@ func OnceDo(o *sync.Once, f func()) {
 	o.Do(func() {}) // the real Once is done as well, whoever looks at it later
 }
 
-// sync.Pool under the simulator is a deterministic LIFO free list per pool: what Get
-// returns depends on the schedule the simulator chose and on nothing else (the real pool
-// keeps per-P caches that the garbage collector empties). An object put back is handed to
-// the very next Get: the reuse a pool permits, made certain.
-var pools = map[uintptr][]any{}
+// sync.Pool under the simulator is a deterministic free list per pool: what Get returns
+// depends on the schedule the simulator chose and on nothing else (the real pool keeps
+// per-P caches that the garbage collector empties). Get prefers the object most recently
+// put back by ANOTHER task, else the most recent one: the reuse a pool permits, made as
+// likely as possible to cross callers.
+type pooled struct {
+	x    any
+	task int
+}
+
+var pools = map[uintptr][]pooled{}
 
 // ResetPools empties every modelled pool (between scenarios).
-func ResetPools() { pools = map[uintptr][]any{} }
+func ResetPools() { pools = map[uintptr][]pooled{} }
 
 func PoolGet(p *sync.Pool) any {
 	if !sch.attached.Load() {
@@ -467,8 +473,16 @@ func PoolGet(p *sync.Pool) any {
 	addr := uintptr(unsafe.Pointer(p))
 	hook("acquire", addr)
 	if l := pools[addr]; len(l) > 0 {
-		x := l[len(l)-1]
-		pools[addr] = l[:len(l)-1]
+		pick := len(l) - 1
+		me := taskID()
+		for i := len(l) - 1; i >= 0; i-- {
+			if l[i].task != me {
+				pick = i
+				break
+			}
+		}
+		x := l[pick].x
+		pools[addr] = append(l[:pick:pick], l[pick+1:]...)
 		return x
 	}
 	if p.New != nil {
@@ -487,7 +501,7 @@ func PoolPut(p *sync.Pool, x any) {
 	}
 	addr := uintptr(unsafe.Pointer(p))
 	hook("release", addr)
-	pools[addr] = append(pools[addr], x)
+	pools[addr] = append(pools[addr], pooled{x: x, task: taskID()})
 }
 
 // AtomicAddr marks the address as accessed atomically and returns it unchanged.
